@@ -9,3 +9,8 @@ import (
 func TestProp(t *testing.T) {
 	h.Run(t, h.Spec[Case]{ID: "C04", Gen: Gen(), Prop: Prop})
 }
+
+// FuzzProp is the native coverage-guided fuzz target (thorough tier).
+func FuzzProp(f *testing.F) {
+	h.Fuzz(f, h.Spec[Case]{ID: "C04", Gen: Gen(), Prop: Prop})
+}
